@@ -62,7 +62,8 @@ HostileOK(e) ==
   /\ e.panic = "" /\ ~e.hang /\ e.abort = "" /\ e.inconsistent = ""
   /\ (e.err = "" /\ e.path = "typed" =>
         LET D == DecBlock(e.rev, e.asts, e.bytes, 0) IN
-        (D.ok /\ Len(D.v.cols) = Len(e.cols)) =>
+        \* (a mutated type name may legitimately change what an inferring target makes of the data)
+        (D.ok /\ Len(D.v.cols) = Len(e.cols) /\ \A i \in 1..Len(e.cols) : D.v.cols[i].type = e.tnames[i]) =>
            (D.v.rows = e.rows /\ \A i \in 1..Len(e.cols) : e.cols[i] = D.v.cols[i].vals))
 HostileAggOK(e) == e.panics = 0 /\ e.inconsistent = 0 /\ e.mutants = e.rejected + e.accepted
 
